@@ -457,11 +457,53 @@ func (jenny RawTypes) disjunctionFromJSON(context languages.Context, typeDef ast
 
 	// the mapping holds the names of the objects: the class is the one of the branch an
 	// entry designates, which can live in the module of another package.
-	classFor := func(objectName string) string {
+	// Two branches can have the same name in different packages (`liba.Cat | libb.Cat`): the
+	// entry then designates the one whose discriminator field holds that value.
+	// An alias is a string at run time (`MyCat: typing.TypeAlias = 'Cat'`): the class is the one it names.
+	classOf := func(ref ast.RefType) string {
+		visited := make(map[string]struct{})
+		for {
+			if _, seen := visited[ref.String()]; seen {
+				break
+			}
+			visited[ref.String()] = struct{}{}
+
+			referredObj, found := context.LocateObjectByRef(ref)
+			if !found || !referredObj.Type.IsRef() {
+				break
+			}
+
+			ref = referredObj.Type.AsRef()
+		}
+
+		return jenny.typeFormatter.formatFullyQualifiedRef(ref, false)
+	}
+	classFor := func(discriminatorValue string, objectName string) string {
+		var candidates []ast.RefType
 		for _, branch := range disjunction.Branches {
 			if branch.IsRef() && branch.Ref.ReferredType == objectName {
-				return jenny.typeFormatter.formatFullyQualifiedRef(branch.AsRef(), false)
+				candidates = append(candidates, branch.AsRef())
 			}
+		}
+
+		for _, candidate := range candidates {
+			if len(candidates) == 1 {
+				break
+			}
+
+			resolved := context.ResolveRefs(candidate.AsType())
+			if !resolved.IsStruct() {
+				continue
+			}
+
+			field, found := resolved.Struct.FieldByName(disjunction.Discriminator)
+			if found && field.Type.IsConcreteScalar() && fmt.Sprintf("%v", field.Type.Scalar.Value) == discriminatorValue {
+				return classOf(candidate)
+			}
+		}
+
+		if len(candidates) != 0 {
+			return classOf(candidates[0])
 		}
 
 		return formatObjectName(objectName)
@@ -477,7 +519,7 @@ func (jenny RawTypes) disjunctionFromJSON(context languages.Context, typeDef ast
 			continue
 		}
 
-		objectRef := classFor(disjunction.DiscriminatorMapping[discriminator])
+		objectRef := classFor(discriminator, disjunction.DiscriminatorMapping[discriminator])
 		decodingMap += fmt.Sprintf(`"%s": %s, `, discriminator, objectRef)
 		branchTypes = append(branchTypes, fmt.Sprintf("%s.Type[%s]", typingPkg, objectRef))
 	}
@@ -491,7 +533,7 @@ func (jenny RawTypes) disjunctionFromJSON(context languages.Context, typeDef ast
 	decodingCall := fmt.Sprintf(`%[3]s[%[2]s["%[1]s"]].from_json(%[2]s)`, disjunction.Discriminator, inputVar, decodingMapName)
 
 	if defaultBranchType, ok := disjunction.DiscriminatorMapping[ast.DiscriminatorCatchAll]; ok {
-		defaultBranch = fmt.Sprintf(`, %s`, classFor(defaultBranchType))
+		defaultBranch = fmt.Sprintf(`, %s`, classFor(ast.DiscriminatorCatchAll, defaultBranchType))
 
 		decodingCall = fmt.Sprintf(`%[4]s.get(%[3]s["%[1]s"]%[2]s).from_json(%[3]s)`, disjunction.Discriminator, defaultBranch, inputVar, decodingMapName)
 	}
